@@ -143,7 +143,9 @@ def emit_fn(item, contract, mode="verify", vacuity=False, extra_auto=None, inden
     lines = []
     lines.append(f"// @fn-begin:{key} src={item['file']}:{item['line_start']}-{item['line_end']} mode={mode}")
     attrs = list(contract.attrs)
-    if mode == "external":
+    if mode == "decl":
+        attrs = []
+    elif mode in ("external", "body_external"):
         attrs.append("#[verifier::external_body]")
     elif contract.no_decreases:
         attrs.append("#[verifier::exec_allows_no_decreases_clause]")
@@ -155,16 +157,20 @@ def emit_fn(item, contract, mode="verify", vacuity=False, extra_auto=None, inden
         sig, where = sig.split("/*where*/")
         sig = sig.strip()
         where = "\n" + indent + "    where " + where.strip()
-    vis = item["vis"].strip()
+    vis = item["vis"].strip() if mode not in ("decl", "body", "body_external") else ""
     head = (vis + " " if vis else "") + sig
     if item["ret"]:
         head += f" -> ({contract.ret_name}: {item['ret']})"
     lines.append(indent + head + where)
-    spec = _spec_block("requires", contract.requires, indent + "    ")
-    spec += _spec_block("ensures", contract.ensures, indent + "    ")
+    spec = ""
+    if mode not in ("body", "body_external"):
+        spec = _spec_block("requires", contract.requires, indent + "    ")
+        spec += _spec_block("ensures", contract.ensures, indent + "    ")
     if spec:
         lines.append(spec.rstrip("\n"))
-    if mode == "external":
+    if mode == "decl":
+        lines.append(indent + ";")
+    elif mode in ("external", "body_external"):
         lines.append(indent + "{ unimplemented!() }")
     else:
         body = item["body"]
@@ -362,13 +368,14 @@ class Unit:
             for j, a in enumerate(auto):
                 self.add_clause(Clause(f"{contract.key}.loop{k}.auto{j}", "ensures", a, contract.props, contract.key))
                 self.add_clause(Clause(f"{contract.key}.loop{k}.autoinv{j}", "invariant_except_break", a, contract.props, contract.key))
-        self.fn_meta[contract.key] = {
+        mkey = contract.key if mode != "decl" else contract.key + "#decl"
+        self.fn_meta[mkey] = {
             "file": item["file"], "lines": [item["line_start"], item["line_end"]], "mode": mode,
             "props": contract.props, "loops": item.get("loops", 0), "rules": item.get("rules_fired", {}),
         }
         for k, v in (item.get("rules_fired") or {}).items():
             self.rules_fired[k] = self.rules_fired.get(k, 0) + v
-        self.raw(emit_fn(item, contract, mode=mode, vacuity=vacuity and mode == "verify", indent=indent))
+        self.raw(emit_fn(item, contract, mode=mode, vacuity=vacuity and mode in ("verify", "body"), indent=indent))
 
     def add_item_text(self, item):
         for k, v in (item.get("rules_fired") or {}).items():
